@@ -528,6 +528,9 @@ def finish(merged, tier, seed):
     total = merged["extra"].get("total_cases", [0])[0]
     if merged["counters"].get("cases_run", 0) != total:
         merged["inconclusive"].append(f"enumeration incomplete: {merged['counters'].get('cases_run', 0)} of {total}")
+    if merged["counters"].get("cold-start-refusals-first", 0) < 20:
+        merged["inconclusive"].append("fewer than 20 cold-start histories began with a refusal: "
+                                      f"{merged['counters'].get('cold-start-refusals-first', 0)}")
     # no two names of a key space share a code (table sanity, the tool side is covered by forward+backward together)
     for sp, t in R.SPACES.items():
         if len(set(t.values())) != len(t):
